@@ -118,6 +118,20 @@ fn main() {
             let ctx = make_ctx(&property);
             let mut rep = Report::default();
             let t0 = Instant::now();
+            // a compiled format that the library rejects although the documented rules accept it would be skipped
+            // by every job list: report it under the property whose domain contains it
+            let groups: &[&str] = match property.as_str() {
+                "C03" | "C04" | "C05" | "C06" | "C07" | "C19" => &["core"],
+                "C16" | "C18" | "C01" | "C02" => &[],
+                _ => &["core", "write", "syntax", "prebuilt", "sep"],
+            };
+            for (name, desc) in cat::cat().unexpectedly_invalid(groups).into_iter().take(3) {
+                rep.violation(
+                    "catalogue:format-validity",
+                    format!("format {name} [{desc}] is valid by the documented rules for this feature set, but the library reports it invalid: every parser and writer only returns a configuration error for it"),
+                    json!({"format": name, "kind": "format-validity"}),
+                );
+            }
             // C09 / C10 run their cases in supervised worker processes with a per-case watchdog
             if property != "C09" && property != "C10" {
                 let tier = if ctx.thorough() { "thorough" } else { "quick" };
@@ -183,6 +197,17 @@ fn main() {
             let mut case = v["case"].clone();
             if let Some(obj) = case.as_object_mut() {
                 obj.insert("subcheck".into(), v["subcheck"].clone());
+            }
+            if case["kind"].as_str() == Some("format-validity") {
+                let name = case["format"].as_str().unwrap_or("");
+                let all = ["core", "write", "syntax", "prebuilt", "sep"];
+                if cat::cat().unexpectedly_invalid(&all).iter().any(|(n, _)| n == name) {
+                    println!("REPLAY-FAIL property={property} file={file}: format {name} is still reported invalid");
+                    println!("VIOLATION property={property} replay={file}");
+                    std::process::exit(1);
+                }
+                println!("REPLAY-PASS property={property} file={file}");
+                return;
             }
             match guard(|| replay(&ctx, &case)) {
                 Ok(Ok(())) => {
